@@ -30,16 +30,20 @@ Theorem c15_taxon_by_name : forall t n,
 Proof. intros t n. split; [apply taxon_lookup_spec|intros p; apply taxon_lookup_sound]. Qed.
 Print Assumptions c15_taxon_by_name.
 
-(* never ambiguous: a tree with repeated leaf names or repeated (assigned) internal names is rejected
-   when the taxonomy is built; an accepted tree has pairwise distinct leaf names and pairwise distinct
-   internal names *)
+(* never ambiguous: a tree with repeated leaf names, repeated (assigned) internal names or a name carried by both a
+   leaf and an internal node (finding F12 repaired) is rejected when the taxonomy is built; in an accepted tree no two
+   nodes have the same name *)
 Theorem c15_unambiguous : forall (ui : bool) t,
-  (~ NoDup (leaf_names (if ui then t else synth t)) \/ ~ NoDup (internal_names (if ui then t else synth t)) ->
+  (~ NoDup (leaf_names (if ui then t else synth t)) \/ ~ NoDup (internal_names (if ui then t else synth t)) \/
+   ~ no_shared_name (if ui then t else synth t) ->
    build_taxonomy ui t = Err KeyError) /\
-  (forall t', build_taxonomy ui t = Ok t' -> NoDup (leaf_names t') /\ NoDup (internal_names t')).
+  (forall t', build_taxonomy ui t = Ok t' ->
+     NoDup (leaf_names t') /\ NoDup (internal_names t') /\ no_shared_name t' /\
+     forall p q n, name_of t' p = Some n -> name_of t' q = Some n -> p = q).
 Proof.
   intros ui t. split; [apply ambiguous_rejected|].
-  intros t' H. apply build_taxonomy_ok in H as (_ & H1 & H2). auto.
+  intros t' H. pose proof (build_taxonomy_no_shared ui t t' H) as Hs. pose proof (built_all_names_inj ui t t' H) as Hn.
+  apply build_taxonomy_ok in H as (_ & H1 & H2). auto.
 Qed.
 Print Assumptions c15_unambiguous.
 
